@@ -30,7 +30,9 @@ let parse_step tok : xstep =
   | _ -> fail "C03: bad step %s" tok
 
 let obs_string (hash : byte list) (ents : (byte list * byte list) list) : string =
-  let ents = List.sort compare (List.map (fun (k, v) -> (string_of_bytes k, v)) ents) in
+  (* Entries() is a Go map: a key visited twice (possible only when a parent was mutated after a
+     snapshot) appears once *)
+  let ents = List.sort_uniq compare (List.map (fun (k, v) -> (string_of_bytes k, v)) ents) in
   let b = Buffer.create 256 in
   Buffer.add_string b (hex_of_bytes hash);
   Buffer.add_char b '#';
@@ -59,20 +61,77 @@ let kind_tag = function
 
 let core_steps steps = List.filter_map (function Core s -> Some s | ClearLimit (i, p, _) -> Some (Clear (i, p))) steps
 
-let check inp obs0 =
-  (* the first field tells which pending Delete/Get repairs the tree under test contains *)
-  let fd, fg, obs =
-    (match String.index_opt obs0 ' ' with
-     | Some i when String.length obs0 >= 8 && String.sub obs0 0 6 = "probe:" ->
-       (obs0.[6] = '1', obs0.[7] = '1', String.sub obs0 (i + 1) (String.length obs0 - i - 1))
-     | _ -> fail "C03: observation without probe: %s" (String.sub obs0 0 (min 40 (String.length obs0)))) in
+(* The isolation predicate on the implementation's observables.
+   kinds.(k) = (target handle or -1, snapshot source or -1, printable token) for step k. *)
+let isolation_pred ~frozen ~model_panic_at (kinds : (int * int * string) array) (obs : string) : string =
+  let recs = Array.of_list (split_ws obs) in
+  let why = ref "" in
+  let fail_with s = if !why = "" then why := s in
+  let cur : string array ref = ref [||] in
+  (if Array.length recs = 0 then fail_with "no-observation" else begin
+    (match String.split_on_char '/' recs.(0) with
+     | "init" :: o -> cur := Array.of_list o
+     | _ -> fail_with "init-shape");
+    let nsteps = Array.length kinds in
+    Array.iteri (fun k (target, snapsrc, tok) ->
+      if !why = "" && k + 1 < Array.length recs then begin
+        let f = String.split_on_char '/' recs.(k + 1) in
+        match f with
+        | ["panic"] | ["err"] | ["bad"] ->
+          if not (List.hd f = "panic" && model_panic_at = k) then
+            fail_with (Printf.sprintf "step %d (%s): %s" k tok (List.hd f))
+        | _ :: o ->
+          if List.mem "panic" o then fail_with (Printf.sprintf "step %d (%s): panic while observing" k tok)
+          else begin
+            let o = Array.of_list o in
+            let nold = Array.length !cur in
+            if frozen then
+              Array.iteri (fun j x ->
+                if j < nold && j <> target && x <> "=" then
+                  fail_with (Printf.sprintf "step %d (%s) changed handle %d: %s -> %s" k tok j (!cur).(j) x)) o;
+            let next = Array.mapi (fun j x -> if x = "=" && j < nold then (!cur).(j) else x) o in
+            (if snapsrc >= 0 then begin
+               if Array.length next <> nold + 1 then fail_with (Printf.sprintf "step %d: snapshot did not add a handle" k)
+               else if snapsrc < nold && next.(nold) <> next.(snapsrc) then
+                 fail_with (Printf.sprintf "step %d (%s): new snapshot differs from its source: %s vs %s" k tok next.(nold) next.(snapsrc))
+             end else if Array.length next <> nold then fail_with (Printf.sprintf "step %d: handle count changed" k));
+            cur := next
+          end
+        | [] -> fail_with "empty-record"
+      end) kinds;
+    if !why = "" && Array.length recs < nsteps + 1 then begin
+      let last = recs.(Array.length recs - 1) in
+      let lf = String.split_on_char '/' last in
+      if not (List.mem "panic" lf || List.mem "err" lf || List.mem "bad" lf) then fail_with "truncated-observation"
+    end
+  end);
+  !why
+
+let first_diff model obs =
+  let a = Array.of_list (split_ws model) and b = Array.of_list (split_ws obs) in
+  let n = min (Array.length a) (Array.length b) in
+  let i = ref 0 in
+  while !i < n && a.(!i) = b.(!i) do incr i done;
+  Printf.sprintf "model differs at record %d: model=%s impl=%s" !i
+    (if !i < Array.length a then a.(!i) else "<none>")
+    (if !i < Array.length b then b.(!i) else "<none>")
+
+let split_probe obs0 =
+  match String.index_opt obs0 ' ' with
+  | Some i when String.length obs0 >= 8 && String.sub obs0 0 6 = "probe:" ->
+    (obs0.[6] = '1', obs0.[7] = '1', String.sub obs0 (i + 1) (String.length obs0 - i - 1))
+  | _ -> fail "C03: observation without probe: %s" (String.sub obs0 0 (min 40 (String.length obs0)))
+
+let render prev cur =
+  List.mapi (fun j o -> match List.nth_opt prev j with Some p when p = o -> "=" | _ -> o) cur
+
+(* ---------- harness "main": fork histories on pkg/trie/inmemory ---------- *)
+let check_main inp obs0 =
+  let fd, fg, obs = split_probe obs0 in
   let toks = split_ws inp in
   let toks = (match toks with "U" :: r -> r | l -> l) in
   let steps = List.map parse_step toks in
   let frozen = frozen_parents (core_steps steps) in
-  (* ---- model run *)
-  let render prev cur = (* "=" for unchanged handles *)
-    List.mapi (fun j o -> match List.nth_opt prev j with Some p when p = o -> "=" | _ -> o) cur in
   let buf = Buffer.create 1024 in
   let st0, o0 = observe fg init_state in
   Buffer.add_string buf (String.concat "/" ("init" :: o0));
@@ -95,60 +154,11 @@ let check inp obs0 =
   in
   go st0 o0 0 steps;
   let model = Buffer.contents buf in
-  (* ---- the isolation predicate on the implementation's observables *)
-  let recs = Array.of_list (split_ws obs) in
-  let why = ref "" in
-  let fail_with s = if !why = "" then why := s in
-  let cur : string array ref = ref [||] in
-  (if Array.length recs = 0 then fail_with "no-observation" else begin
-    (match String.split_on_char '/' recs.(0) with
-     | "init" :: o -> cur := Array.of_list o
-     | _ -> fail_with "init-shape");
-    let nsteps = List.length steps in
-    List.iteri (fun k s ->
-      if !why = "" then begin
-        if k + 1 >= Array.length recs then begin
-          (* the history stopped early: only legitimate after a panic record *)
-          ()
-        end else begin
-          let f = String.split_on_char '/' recs.(k + 1) in
-          match f with
-          | ["panic"] | ["err"] | ["bad"] ->
-            if not (List.hd f = "panic" && !model_panic_at = k) then
-              fail_with (Printf.sprintf "step %d (%s): %s" k (List.nth toks k) (List.hd f))
-          | res :: o ->
-            if List.mem "panic" o then fail_with (Printf.sprintf "step %d (%s): panic while observing" k (List.nth toks k))
-            else begin
-              let o = Array.of_list o in
-              let nold = Array.length !cur in
-              let target = (match xmutated_handle s with Some i -> int_of_nat i | None -> -1) in
-              if frozen then
-                Array.iteri (fun j x ->
-                  if j < nold && j <> target && x <> "=" then
-                    fail_with (Printf.sprintf "step %d (%s) changed handle %d: %s -> %s" k (List.nth toks k) j (!cur).(j) x)) o;
-              (* expand *)
-              let next = Array.mapi (fun j x -> if x = "=" && j < nold then (!cur).(j) else x) o in
-              (match s with
-               | Core (Snap i) ->
-                 let i = int_of_nat i in
-                 if Array.length next <> nold + 1 then fail_with (Printf.sprintf "step %d: snapshot did not add a handle" k)
-                 else if i < nold && next.(nold) <> next.(i) then
-                   fail_with (Printf.sprintf "step %d (%s): new snapshot differs from its source: %s vs %s" k (List.nth toks k) next.(nold) next.(i))
-               | _ -> if Array.length next <> nold then fail_with (Printf.sprintf "step %d: handle count changed" k));
-              ignore res;
-              cur := next
-            end
-          | [] -> fail_with "empty-record"
-        end
-      end) steps;
-    (* a truncated observation without a panic marker is a harness problem, reported as such *)
-    if !why = "" && Array.length recs < nsteps + 1 then begin
-      let last = recs.(Array.length recs - 1) in
-      let lf = String.split_on_char '/' last in
-      if not (List.mem "panic" lf || List.mem "err" lf || List.mem "bad" lf) then fail_with "truncated-observation"
-    end
-  end);
-  let prop_ok = (!why = "") in
+  let kinds = Array.of_list (List.map2 (fun s tok ->
+    ((match xmutated_handle s with Some i -> int_of_nat i | None -> -1),
+     (match s with Core (Snap i) -> int_of_nat i | _ -> -1), tok)) steps toks) in
+  let why = isolation_pred ~frozen ~model_panic_at:!model_panic_at kinds obs in
+  let prop_ok = (why = "") in
   let model_eq = (model = obs) in
   let nsnap = List.length (List.filter (function Core (Snap _) -> true | _ -> false) steps) in
   let mut_after_snap =
@@ -157,23 +167,90 @@ let check inp obs0 =
       | Core (Snap _) :: r -> f true r
       | s :: r -> (seen && xmutated_handle s <> None) || f seen r in
     f false steps in
-  let kinds = List.sort_uniq compare (List.map kind_tag steps) in
+  let kinds_t = List.sort_uniq compare (List.map kind_tag steps) in
   let tags = String.concat "," (
-    kinds @ [Printf.sprintf "handles-%d" (1 + nsnap)]
+    kinds_t @ [Printf.sprintf "handles-%d" (1 + nsnap)]
     @ (if frozen then ["frozen-parents"] else ["parent-mutated"])
     @ [Printf.sprintf "tree-delete-fix-%b-get-fix-%b" fd fg]
     @ (if !model_panic_at >= 0 then ["version-regress-panic"] else [])) in
   { prop_ok; model_eq; nontrivial = (nsnap >= 1 && mut_after_snap); finding = "-"; tags;
-    detail = (if prop_ok && model_eq then ""
-              else if not prop_ok then "isolation: " ^ !why
-              else
-                (* first differing record *)
-                let a = Array.of_list (split_ws model) and b = recs in
-                let n = min (Array.length a) (Array.length b) in
-                let i = ref 0 in
-                while !i < n && a.(!i) = b.(!i) do incr i done;
-                Printf.sprintf "model differs at record %d: model=%s impl=%s" !i
-                  (if !i < Array.length a then a.(!i) else "<none>")
-                  (if !i < Array.length b then b.(!i) else "<none>")) }
+    detail = (if prop_ok && model_eq then "" else if not prop_ok then "isolation: " ^ why else first_diff model obs) }
+
+(* ---------- harness "state": StoreTrie / TrieState(root) of dot/state ---------- *)
+let check_state inp obs0 =
+  let fd, fg, obs = split_probe obs0 in
+  let toks = (match split_ws inp with "state" :: r -> r | _ -> fail "C03: bad state input") in
+  let buf = Buffer.create 1024 in
+  let st0, o0 = observe fg init_state in
+  Buffer.add_string buf (String.concat "/" ("init" :: o0));
+  let model_panic_at = ref (-1) in
+  let tries : (string, int) Hashtbl.t = Hashtbl.create 16 in      (* root -> first handle stored under it *)
+  let stored : (int, string) Hashtbl.t = Hashtbl.create 16 in     (* handle -> root at its last StoreTrie *)
+  let core = ref [] in                                            (* the model steps performed, in order *)
+  let kinds = ref [] in
+  let run_core st (l : step list) =
+    List.fold_left (fun (st, res) s ->
+      if res <> ROk then (st, res) else begin
+        core := s :: !core;
+        let (st1, r) = exec hh true fd st s in (st1, r) end) (st, ROk) l in
+  let root_of st k =
+    let hd = List.nth st.s_hs k in
+    let (_, hv) = hash_handle hh st.s_mem hd in hex_of_bytes hv in
+  let rec go st prev k = function
+    | [] -> ()
+    | tok :: r ->
+      let body = String.sub tok 1 (String.length tok - 1) in
+      let f = String.split_on_char ':' body in
+      let idx = int_of_string ("0x" ^ List.hd f) in
+      let nidx = nat_of_int idx in
+      let (steps, target, snapsrc) : step list * int * int =
+        (match tok.[0], f with
+         | 'p', [_; ky; v] -> ([Put (nidx, bytes_of_hex ky, bytes_of_hex v)], idx, -1)
+         | 'd', [_; ky] -> ([Del (nidx, bytes_of_hex ky)], idx, -1)
+         | 'c', [_; p] -> ([Clear (nidx, bytes_of_hex p)], idx, -1)
+         | 'v', [_; v] -> ([SetVer (nidx, v = "1")], -1, -1)
+         | 'S', [_] ->
+           let root = root_of st idx in
+           if not (Hashtbl.mem tries root) then Hashtbl.add tries root idx;
+           Hashtbl.replace stored idx root;
+           ([HashOp nidx; Commit nidx], -1, -1)
+         | 'T', [_] ->
+           let root = (try Hashtbl.find stored idx with Not_found -> fail "C03 state: T of an unstored handle") in
+           let j = Hashtbl.find tries root in
+           (* TrieState panics when the cached trie no longer has the expected root *)
+           if root_of st j <> root then ([], -2, -1)
+           else ([HashOp (nat_of_int j); Snap (nat_of_int j)], -1, j)
+         | _ -> fail "C03 state: bad step %s" tok) in
+      kinds := (target, snapsrc, tok) :: !kinds;
+      Buffer.add_char buf ' ';
+      if target = -2 then begin model_panic_at := k; Buffer.add_string buf "panic" end
+      else begin
+        let (st1, res) = run_core st steps in
+        (match res with
+         | ROk ->
+           let st2, cur = observe fg st1 in
+           Buffer.add_string buf (String.concat "/" ("ok" :: render prev cur));
+           go st2 cur (k + 1) r
+         | RPanic -> model_panic_at := k; Buffer.add_string buf "panic"
+         | RBad -> Buffer.add_string buf "bad")
+      end
+  in
+  go st0 o0 0 toks;
+  let model = Buffer.contents buf in
+  let frozen = frozen_parents (List.rev !core) in
+  (* in this harness a panic is never expected: TrieState(root) must find the cached trie intact *)
+  let why = isolation_pred ~frozen ~model_panic_at:(-1) (Array.of_list (List.rev !kinds)) obs in
+  let prop_ok = (why = "") in
+  let model_eq = (model = obs) in
+  let nT = List.length (List.filter (fun t -> t.[0] = 'T') toks) in
+  let tags = String.concat "," (
+    ["state-harness"; Printf.sprintf "state-blocks-%d" nT]
+    @ (if frozen then ["frozen-parents"] else ["parent-mutated"])
+    @ (if Hashtbl.length tries < Hashtbl.length stored then ["state-same-root-stored-twice"] else [])) in
+  { prop_ok; model_eq; nontrivial = (nT >= 1); finding = "-"; tags;
+    detail = (if prop_ok && model_eq then "" else if not prop_ok then "isolation: " ^ why else first_diff model obs) }
+
+let check inp obs =
+  if String.length inp >= 5 && String.sub inp 0 5 = "state" then check_state inp obs else check_main inp obs
 
 let () = run_driver check
